@@ -1,6 +1,288 @@
 package main
 
-// tryReplay attempts to turn a failed obligation into a failing input of the real code.
+import (
+	"bytes"
+	"encoding/json"
+	"fmt"
+	"go/types"
+	"os"
+	"os/exec"
+	"path/filepath"
+	"regexp"
+	"strconv"
+	"strings"
+)
+
+// tryReplay turns the solver's counterexample for a failed obligation into an execution of the real code.
+//
+// Supported: package-level functions (no receiver, no captured variables) whose parameters are integers,
+// float64, booleans or strings, when a back end answered sat with a model. The model's arguments are passed
+// to the real function in a Go test injected with -overlay (nothing is written to the repository), and the
+// real results are compared with the results the model predicts: if they agree, the real code produces exactly
+// the outcome that falsifies the obligation (for a safety obligation: if the call panics). Anything else
+// (methods, pointers, quantified goals answered unknown) is reported without a failing input.
 func tryReplay(env *Env, repo, root string, vc *VC, o *Obligation, scratch string, body map[string]any) bool {
-	return false
+	if vc == nil || vc.fn == nil || o.Result == nil {
+		return false
+	}
+	fn := vc.fn
+	if fn.Signature.Recv() != nil || len(fn.FreeVars) > 0 || fn.Parent() != nil || fn.Pkg == nil || fn.Origin() != nil {
+		return false
+	}
+	values := o.Result.Values
+	if o.Result.Answer != "sat" || len(values) == 0 {
+		// With quantified axioms in the context the solvers answer unknown rather than sat. A candidate is
+		// searched in the quantifier-free part of the query (assumptions are only dropped, so the candidate may be
+		// spurious: the execution of the real code below decides).
+		var qf []string
+		for _, l := range strings.Split(vc.query(o), "\n") {
+			if !strings.Contains(l, "(forall ") && !strings.Contains(l, "(exists ") {
+				qf = append(qf, l)
+			}
+		}
+		r := raceSolveOn(scratch, o.Name+".candidate", strings.Join(qf, "\n"), 5, false, backends[:2])
+		if r.Answer != "sat" || len(r.Values) == 0 {
+			return false
+		}
+		values = r.Values
+		body["candidate_from"] = "quantifier-free part of the query (" + r.Backend + ")"
+	}
+	val := func(t Term) (string, bool) {
+		v, ok := values[strings.Trim(t, "|")]
+		return v, ok
+	}
+	var args []string
+	inputs := map[string]string{}
+	byName := map[string]namedTerm{}
+	for _, w := range o.Witness {
+		byName[w.Name] = w
+	}
+	params := fn.Signature.Params()
+	names := append([]Param{}, vc.decl.Params...)
+	if len(names) != params.Len() {
+		return false
+	}
+	for i := 0; i < params.Len(); i++ {
+		w, ok := byName[names[i].Name]
+		if !ok {
+			return false
+		}
+		mv, ok := val(w.T)
+		if !ok {
+			return false
+		}
+		lit, ok := goLiteral(mv, params.At(i).Type())
+		if !ok {
+			return false
+		}
+		args = append(args, lit)
+		inputs[names[i].Name] = lit
+	}
+	// predicted results (present for postconditions)
+	res := fn.Signature.Results()
+	var predicted []string
+	for i := 0; i < res.Len(); i++ {
+		w, ok := byName[fmt.Sprintf("result%d", i)]
+		if !ok {
+			predicted = nil
+			break
+		}
+		mv, ok := val(w.T)
+		if !ok {
+			predicted = nil
+			break
+		}
+		lit, ok := goLiteral(mv, res.At(i).Type())
+		if !ok {
+			predicted = nil
+			break
+		}
+		predicted = append(predicted, lit)
+	}
+	if o.Class != "safe" && predicted == nil {
+		return false
+	}
+	pkgDir := filepath.Dir(env.prog.Fset.Position(fn.Pos()).Filename)
+	var lhs []string
+	var prints []string
+	for i := 0; i < res.Len(); i++ {
+		lhs = append(lhs, fmt.Sprintf("r%d", i))
+		prints = append(prints, fmt.Sprintf("govcShow(r%d)", i))
+	}
+	call := fmt.Sprintf("%s(%s)", fn.Name(), strings.Join(args, ", "))
+	if len(lhs) > 0 {
+		call = strings.Join(lhs, ", ") + " := " + call
+	}
+	src := fmt.Sprintf(`package %s
+
+import (
+	"fmt"
+	"math"
+	"testing"
+)
+
+func govcShow(v any) string {
+	switch x := v.(type) {
+	case float64:
+		if math.IsNaN(x) {
+			return "math.NaN()"
+		}
+		return fmt.Sprintf("math.Float64frombits(0x%%016x)", math.Float64bits(x))
+	case string:
+		return fmt.Sprintf("%%q", x)
+	case error:
+		if x == nil {
+			return "nil"
+		}
+		return "error"
+	}
+	return fmt.Sprint(v)
+}
+
+func TestGovcReplay(t *testing.T) {
+	defer func() {
+		if r := recover(); r != nil {
+			fmt.Printf("GOVC-REPLAY-PANIC %%v\n", r)
+		}
+	}()
+	%s
+	fmt.Println("GOVC-REPLAY-RESULTS", %s)
+}
+`, fn.Pkg.Pkg.Name(), call, strings.Join(append(prints, `""`), ", "))
+	tmp, err := os.MkdirTemp("", "govc-replay")
+	if err != nil {
+		return false
+	}
+	defer os.RemoveAll(tmp)
+	testFile := filepath.Join(tmp, "replay_test.go")
+	os.WriteFile(testFile, []byte(src), 0o644)
+	ov := map[string]string{filepath.Join(pkgDir, "zz_govc_replay_test.go"): testFile}
+	i := 0
+	for path, content := range env.overlay {
+		f := filepath.Join(tmp, fmt.Sprintf("ov%d.go", i))
+		i++
+		os.WriteFile(f, content, 0o644)
+		ov[path] = f
+	}
+	ovData, _ := json.Marshal(map[string]any{"Replace": ov})
+	ovFile := filepath.Join(tmp, "overlay.json")
+	os.WriteFile(ovFile, ovData, 0o644)
+	cmd := exec.Command("go", "test", "-overlay", ovFile, "-vet=off", "-count=1", "-timeout", "60s", "-run", "^TestGovcReplay$", "-v", ".")
+	cmd.Dir = pkgDir
+	cmd.Env = append(os.Environ(), "GOFLAGS=-mod=mod", "GOPROXY=off", "GOSUMDB=off", "GOTOOLCHAIN=local")
+	var buf bytes.Buffer
+	cmd.Stdout, cmd.Stderr = &buf, &buf
+	cmd.Run()
+	out := buf.String()
+	rep := map[string]any{"inputs": inputs, "call": fmt.Sprintf("%s.%s(%s)", fn.Pkg.Pkg.Name(), fn.Name(), strings.Join(args, ", ")), "test_source": src,
+		"how": "go test -overlay (in-package test injected without writing to the repository) -run ^TestGovcReplay$ in " + pkgDir}
+	confirmed := false
+	switch {
+	case strings.Contains(out, "GOVC-REPLAY-PANIC"):
+		rep["real_outcome"] = "panic: " + strings.TrimSpace(lineAfter(out, "GOVC-REPLAY-PANIC"))
+		confirmed = o.Class == "safe"
+	case strings.Contains(out, "GOVC-REPLAY-RESULTS"):
+		real := strings.Fields(lineAfter(out, "GOVC-REPLAY-RESULTS"))
+		rep["real_results"] = real
+		rep["predicted_results"] = predicted
+		if predicted != nil && len(real) == len(predicted) {
+			confirmed = true
+			for i := range real {
+				if real[i] != normaliseLit(predicted[i]) {
+					confirmed = false
+				}
+			}
+		}
+	default:
+		rep["real_outcome"] = "the replay did not run: " + truncate(out, 1500)
+	}
+	rep["confirmed"] = confirmed
+	body["replay"] = rep
+	if confirmed {
+		body["failing_input"] = inputs
+	}
+	return confirmed
+}
+
+func lineAfter(out, marker string) string {
+	i := strings.Index(out, marker)
+	if i < 0 {
+		return ""
+	}
+	s := out[i+len(marker):]
+	if j := strings.IndexByte(s, '\n'); j >= 0 {
+		s = s[:j]
+	}
+	return s
+}
+
+var typedIntRe = regexp.MustCompile(`^[a-z0-9]+\((-?[0-9]+)\)$`)
+
+func normaliseLit(l string) string {
+	if l == "true" || l == "false" {
+		return l
+	}
+	if m := typedIntRe.FindStringSubmatch(l); m != nil {
+		return m[1] // int64(9) is printed as 9
+	}
+	return strings.ReplaceAll(l, " ", "")
+}
+
+var fpRe = regexp.MustCompile(`^\(fp #b([01]) #b([01]{11}) #x([0-9a-fA-F]{13})\)$`)
+
+// goLiteral renders a model value as a Go expression of the given basic type.
+func goLiteral(mv string, t types.Type) (string, bool) {
+	b, ok := t.Underlying().(*types.Basic)
+	if !ok {
+		return "", false
+	}
+	mv = strings.TrimSpace(mv)
+	switch {
+	case b.Info()&types.IsInteger != 0:
+		s := mv
+		if strings.HasPrefix(s, "(- ") {
+			s = "-" + strings.TrimSuffix(strings.TrimPrefix(s, "(- "), ")")
+		}
+		if _, err := strconv.ParseInt(s, 10, 64); err != nil {
+			return "", false
+		}
+		if b.Kind() != types.Int && b.Kind() != types.UntypedInt {
+			return fmt.Sprintf("%s(%s)", b.Name(), s), true
+		}
+		return s, true
+	case b.Info()&types.IsBoolean != 0:
+		if mv == "true" || mv == "false" {
+			return mv, true
+		}
+	case b.Kind() == types.Float64:
+		switch {
+		case strings.HasPrefix(mv, "(_ NaN"):
+			return "math.NaN()", true
+		case strings.HasPrefix(mv, "(_ +oo"):
+			return "math.Float64frombits(0x7ff0000000000000)", true
+		case strings.HasPrefix(mv, "(_ -oo"):
+			return "math.Float64frombits(0xfff0000000000000)", true
+		case strings.HasPrefix(mv, "(_ +zero"):
+			return "math.Float64frombits(0x0000000000000000)", true
+		case strings.HasPrefix(mv, "(_ -zero"):
+			return "math.Float64frombits(0x8000000000000000)", true
+		}
+		if m := fpRe.FindStringSubmatch(mv); m != nil {
+			sign, _ := strconv.ParseUint(m[1], 2, 64)
+			exp, _ := strconv.ParseUint(m[2], 2, 64)
+			man, _ := strconv.ParseUint(m[3], 16, 64)
+			return fmt.Sprintf("math.Float64frombits(0x%016x)", sign<<63|exp<<52|man), true
+		}
+	case b.Info()&types.IsString != 0:
+		if len(mv) >= 2 && mv[0] == '"' && mv[len(mv)-1] == '"' {
+			s := strings.ReplaceAll(mv[1:len(mv)-1], `""`, `"`)
+			// SMT-LIB unicode escapes \u{X}
+			s = regexp.MustCompile(`\\u\{([0-9a-fA-F]+)\}`).ReplaceAllStringFunc(s, func(e string) string {
+				n, _ := strconv.ParseUint(e[3:len(e)-1], 16, 32)
+				return string(rune(n))
+			})
+			return strconv.Quote(s), true
+		}
+	}
+	return "", false
 }
